@@ -902,6 +902,10 @@ class Frame(object):
                 new = base.env.get(name)
                 if isinstance(new, ListV) and len(new.elems) > len(old.elems):
                     base.env[name] = ListV(old.elems + [EachV(vartext, colltext, new.elems[len(old.elems):])], old.kind)
+            elif isinstance(old, Const) and type(old.value) is int and target is not None and ' if ' not in colltext and \
+                    len(body) == 1 and body[0][1] == 'normal' and render(base.env.get(name)) == '(%d + %s)' % (old.value, vartext):
+                # acc = k; for x in C: acc += x   is   k + sum(C)
+                base.env[name] = Sym('sum(%s)' % colltext) if old.value == 0 else Sym('(%d + sum(%s))' % (old.value, colltext))
         # yields inside the loop
         ys = []
         for s in normal:
